@@ -6,6 +6,7 @@ import (
 	"bytes"
 	"context"
 	"fmt"
+	"io"
 	"net/http"
 	"net/http/httptest"
 	"os"
@@ -138,6 +139,48 @@ func rPut(h http.Handler, path string, body []byte, withLen bool, user, pswd str
 	} else {
 		req.Header.Set("Content-Length", fmt.Sprint(len(body)))
 	}
+	if user != "" || pswd != "" {
+		req.SetBasicAuth(user, pswd)
+	}
+	w := httptest.NewRecorder()
+	h.ServeHTTP(w, req)
+	return rResp{Code: w.Code, Body: w.Body.Bytes()}
+}
+
+// rStallReader delivers a request body in two parts, the media data after a scheduling point: the rest of an upload
+// may arrive after other uploads have been handled completely.
+type rStallReader struct {
+	data []byte
+	cut  int
+	pos  int
+}
+
+func (r *rStallReader) Read(p []byte) (int, error) {
+	if r.pos >= len(r.data) {
+		return 0, io.EOF
+	}
+	end := len(r.data)
+	if r.pos < r.cut {
+		end = r.cut
+	} else if r.pos == r.cut {
+		if s := vrt.Cur(); s != nil {
+			s.Point("rest-of-body-arrives")
+		}
+	}
+	n := copy(p, r.data[r.pos:end])
+	r.pos += n
+	return n, nil
+}
+
+// rPutStalled is rPut with the body arriving in two parts: everything before the first mdat box, then the rest.
+func rPutStalled(h http.Handler, path string, body []byte, user, pswd string) rResp {
+	cut := bytes.Index(body, []byte("mdat")) - 4
+	if cut <= 0 {
+		return rPut(h, path, body, true, user, pswd)
+	}
+	req := httptest.NewRequest("PUT", path, &rStallReader{data: body, cut: cut})
+	req.ContentLength = int64(len(body))
+	req.Header.Set("Content-Length", fmt.Sprint(len(body)))
 	if user != "" || pswd != "" {
 		req.SetBasicAuth(user, pswd)
 	}
